@@ -365,6 +365,44 @@ impl Ctx {
         self.emit(format!("mark endwalk {cc}"), "mark".into());
     }
 
+    /// fetch the snapshot and walk the chain from its version id
+    pub fn swalk(&mut self, c: u32) {
+        let cu = self.client(c);
+        let cc = self.canon.id(cu);
+        self.emit(format!("mark swalk {cc}"), "mark".into());
+        let server = self.server.as_ref().unwrap();
+        let r = catch_unwind(AssertUnwindSafe(|| server.get_snapshot(cu)));
+        let start = match &r {
+            Ok(Ok(Some((v, _)))) => Some(*v),
+            _ => None,
+        };
+        let line = match r {
+            Ok(Ok(Some((v, d)))) => format!("snap {} {}", self.canon.id(v), self.canon.payload(&d)),
+            Ok(Ok(None)) => "nosnap".into(),
+            Ok(Err(ServerError::NoSuchClient)) => "noclient".into(),
+            Ok(Err(_)) => "error".into(),
+            Err(_) => "panic".into(),
+        };
+        self.emit(format!("gs {cc}"), line);
+        if let Some(mut p) = start {
+            let n = self.accepted.get(&c).map(|v| v.len()).unwrap_or(0);
+            for _ in 0..(n + 3) {
+                let server = self.server.as_ref().unwrap();
+                let r = catch_unwind(AssertUnwindSafe(|| server.get_child_version(cu, p)));
+                let next = match &r {
+                    Ok(Ok(GetVersionResult::Success { version_id, .. })) => Some(*version_id),
+                    _ => None,
+                };
+                self.get_child_result(cu, p, r);
+                match next {
+                    Some(v) => p = v,
+                    None => break,
+                }
+            }
+        }
+        self.emit(format!("mark endwalk {cc}"), "mark".into());
+    }
+
     /// re-read every accepted version of client c by asking for the child of its parent
     pub fn reread(&mut self, c: u32) {
         let cu = self.client(c);
@@ -586,6 +624,7 @@ impl Ctx {
             ["reopen"] => self.reopen(),
             ["walk", c] => self.walk(c.parse().unwrap()),
             ["reread", c] => self.reread(c.parse().unwrap()),
+            ["swalk", c] => self.swalk(c.parse().unwrap()),
             ["mark", rest @ ..] => {
                 let m = rest.join(" ");
                 self.emit(format!("mark {m}"), "mark".into())
